@@ -653,6 +653,13 @@ func (s *levelsController) subcompact(it y.Iterator, kr keyRange, cd compactDef,
 	// Check overlap of the top level with the levels which are not being
 	// compacted in this compaction.
 	hasOverlap := s.checkOverlap(cd.allTables(), cd.nextLevel.level+1)
+	// An L0->L0 compaction merges only a subset of the L0 tables. The tables left out
+	// (too new, too big or already being compacted) can hold older versions of the keys
+	// being compacted, and checkOverlap does not look at L0. Keep the deletion markers,
+	// otherwise a deleted key reappears from a left-out table.
+	if cd.thisLevel.level == 0 && cd.nextLevel.level == 0 {
+		hasOverlap = true
+	}
 
 	// Pick a discard ts, so we can discard versions below this ts. We should
 	// never discard any versions starting from above this timestamp, because
